@@ -224,7 +224,7 @@ REPAIRS = [   # (cause, targets it can explain, rewrite)
 
 
 # ------------------------------------------------------------------------------------------------ real / model plumbing
-LINE_RE = re.compile(r"^(?:ks=(\d+) es=(\d+) bs=(\d+) )?a=(\d+),(\d+),(\S+) b=(\d+),(\d+),(\S+) c=(\d+),(\d+),(\d+),(?:(\d+),)?(\S+)$")
+LINE_RE = re.compile(r"^(?:ks=(\d+) es=(\d+) bs=(\d+) )?a=(\d+),(\d+),(\S+) b=(\d+),(\d+),(\S+) c=(\d+),(\d+),(\d+),(?:(\d+),)?(\S+) e=(\d+),(\d+)$")
 
 
 def decode(line, real):
@@ -234,7 +234,7 @@ def decode(line, real):
         return None
     g = m.groups()
     d = {"a": (int(g[3]), int(g[4]), g[5]), "b": (int(g[6]), int(g[7]), g[8]), "c": (int(g[9]), int(g[10]), g[13]),
-         "cfa": int(g[11]), "ptrbytes": g[12]}
+         "cfa": int(g[11]), "ptrbytes": g[12], "e": (int(g[14]), int(g[15]))}
     if g[0] is not None:
         d["map"] = (int(g[0]), int(g[1]), int(g[2]))
     return d
@@ -245,7 +245,8 @@ def strip_ptrbytes(line):
 
 
 def agrees(d):
-    return d["a"] == d["b"] == d["c"] and d["cfa"] == d["c"][1]
+    """(a) = (b) = (c), FieldAlign = Align, and the referenced element descriptor has the size and alignment of (b)"""
+    return d["a"] == d["b"] == d["c"] and d["cfa"] == d["c"][1] and d["e"] == d["b"][:2]
 
 
 def extract_overrides(ctx):
@@ -404,9 +405,27 @@ def e2e_program(terms):
             L.append("\tfor _, f := range st.Fields { print(\",\", f.Offset) }")
         L.append('\tprintln()')
         L.append("}")
+    L += ["// consequences of the element descriptor's size (runtime copies/clears t.Elem.Size_ bytes)",
+          "func clearfunc() {",
+          "\ts := make([]func() int, 4)",
+          "\tfor i := range s { j := i; s[i] = func() int { return j } }",
+          "\tclear(s)",
+          "\tn := 0",
+          "\tfor i := range s { if s[i] == nil { n++ } }",
+          '\tprintln("clearfunc", n, 4)',
+          "}",
+          "func mapfunc(n int) {",
+          '\tdefer func() { if e := recover(); e != nil { println("mapfunc", n, -1, n*(n-1)) } }()',
+          "\tm := map[int]func() int{}",
+          "\tfor i := 0; i < n; i++ { j := i; m[i] = func() int { return j * 2 } }",
+          "\tsum := 0",
+          "\tfor i := 0; i < n; i++ { sum += m[i]() }",
+          '\tprintln("mapfunc", n, sum, n*(n-1))',
+          "}"]
     L.append("func main() {")
     for i in range(len(terms)):
         L.append("\tf%d()" % i)
+    L += ["\tclearfunc()", "\tmapfunc(8)", "\tmapfunc(9)"]
     L.append("}")
     return "\n".join(L) + "\n"
 
@@ -427,7 +446,8 @@ def run_e2e(ctx, terms, model_lines):
         m = re.match(r"^(\d+) a=(\S+) b=(\S+) c=(\S+)$", l)
         if m:
             res[int(m.group(1))] = (m.group(2), m.group(3), m.group(4))
-    return res, rc, (out + err)[-1500:]
+    probes = [tuple(l.split()) for l in (out + err).split("\n") if l.startswith("clearfunc ") or l.startswith("mapfunc ")]
+    return res, rc, (out + err)[-1500:], probes
 
 
 class Server:
@@ -499,19 +519,25 @@ def run(ctx, args):
             raise HarnessBuildError("the C08 harness died after %d/%d lines:\n%s" % (len(out), len(lines), hproc.stderr_tail()))
         return out
 
+    variant = []      # `set …` lines selecting the variant of the descriptor code the working tree has
+
     def model(lines):
-        out, rc, err = run_lines([modeld], lines)
-        if len(out) != len(lines):
+        out, rc, err = run_lines([modeld], variant + lines)
+        if len(out) != len(variant) + len(lines):
             raise RuntimeError("modeld_c08 died: %d/%d\n%s" % (len(out), len(lines), err[-2000:]))
-        return out
+        return out[len(variant):]
 
     # which descriptor alignment table does the working tree have?  (fixes/C08-1.diff makes the 8-byte kinds follow the
     # data layout; the model has both tables: `q` = hand-written constants, `qf` = repaired table)
-    probe = decode(real(["q linux/386 i64"])[0], True)
+    pr = real(["q linux/386 i64", "q linux/amd64 F"])
+    probe, probe2 = decode(pr[0], True), decode(pr[1], True)
     fixed_table = probe is not None and probe["c"][1] == 4
-    QM, MBM = ("qf", "mbf") if fixed_table else ("q", "mb")
-    ctx.log("descriptor alignment table of the working tree:", "repaired (fixes/C08-1)" if fixed_table else "hand-written constants (8 for 8-byte kinds)")
-    ctx.coverage["descriptor_table_variant"] = "fixed" if fixed_table else "original"
+    func_words = 2 if (probe2 is not None and probe2["e"][0] == 16) else 1
+    QM, MBM = "q", "mb"
+    variant += ["set align-table " + ("fixed" if fixed_table else "orig"), "set func-words %d" % func_words]
+    ctx.log("descriptor code of the working tree: alignment table %s; a function type is recorded with %d word(s)" %
+            ("repaired (fixes/C08-1)" if fixed_table else "hand-written constants (8 for 8-byte kinds)", func_words))
+    ctx.coverage["descriptor_code_variant"] = {"align_table": "fixed" if fixed_table else "original", "func_words": func_words}
 
     # ---- 0. the target records of the model against the real data layouts / base sizes
     dls = real(["dl " + rt for rt, _ in TARGETS])
@@ -605,6 +631,12 @@ def run(ctx, args):
     # bucket structs are ordinary struct terms for the purpose of cause attribution
     pending = []
     for (i, mt, d) in failing:
+        if meta[i][2] is None and meta[i][1][0] in ("F", "F1") and d["a"] == d["b"] == d["c"] and d["e"][1] == d["b"][1]:
+            # an unnamed function type: only the referenced descriptor's size differs (one word for a two-word value)
+            key = "layout:%s:func-descriptor-size" % mt
+            spec_fail_keys[key] = spec_fail_keys.get(key, 0) + 1
+            ctx.report(key, "descriptor of a function type records one word, a function value is two", {"line": lr[i], "real": ro[i]})
+            continue
         if meta[i][2] is None:
             pending.append({"i": i, "mt": mt, "t": meta[i][1], "causes": [], "done": False})
         else:
@@ -687,7 +719,18 @@ def run(ctx, args):
         rng.shuffle(sts)
         pick = [parse(s) for s in ["T(i8,i64)", "T(i8,F,i64)", "T(i64,T())", "T(b,F,b)", "T(i32,T(),T())", "T(A(3,F),i8)", "T(T(i32,i8),i8)"]] + sts[:n_e2e]
         mlines = model([QM + " amd64 " + show(t) for t in pick])
-        res, rc, tail = run_e2e(ctx, pick, mlines)
+        res, rc, tail, probes = run_e2e(ctx, pick, mlines)
+        e2e_stats["probes"] = [" ".join(p) for p in probes]
+        want_probes = {("clearfunc",), ("mapfunc", "8"), ("mapfunc", "9")}
+        for pr_ in probes:
+            want_probes.discard(pr_[:1] if pr_[0] == "clearfunc" else pr_[:2])
+            if pr_[-1] != pr_[-2]:
+                ctx.report("layout:amd64:func-descriptor-size", "compiled program: a map / slice of function values loses data (runtime copies Elem.Size_ bytes)",
+                           {"probe": " ".join(pr_), "meaning": "clearfunc <nil entries after clear> <want>; mapfunc <n> <sum of m[i]() or -1 for panic> <want>"})
+        if want_probes and func_words == 1:
+            ctx.report("layout:amd64:func-descriptor-size", "compiled program died in the function-value probes", {"missing": sorted(want_probes), "tail": tail})
+        elif want_probes:
+            ctx.report("layout:amd64:e2e-probes-missing", "compiled program died in the function-value probes", {"missing": sorted(want_probes), "tail": tail})
         ctx.log("end-to-end program ran: %d of %d structs answered, rc %s" % (len(res), len(pick), rc))
         e2e_stats["structs"] = len(pick)
         e2e_stats["rc"] = rc
